@@ -332,7 +332,25 @@ func genFlow(g *hx.Gen, r *hx.Rand) {
 	g.Emit("wflow %s", strings.Join(steps, " / "))
 }
 
+// withdrawals of all payload versions submitted to the mempool's conflict manager, colliding on purpose
+func genPool(g *hx.Gen, r *hx.Rand) {
+	n := 2 + r.Intn(5)
+	var txs []string
+	for i := 0; i < n; i++ {
+		k := 1 + r.Intn(2)
+		var hs []int
+		for j := 0; j < k; j++ {
+			hs = append(hs, 1+r.Intn(5))
+		}
+		txs = append(txs, fmt.Sprintf("v%d:%s", r.Pick(0, 1, 1, 2, 2), joinInts(hs, "+")))
+	}
+	g.Emit("mp %s", strings.Join(txs, " "))
+}
+
 func gen(g *hx.Gen) {
+	for i := 0; i < g.N(300, 3000); i++ {
+		genPool(g, g.R.Fork(uint64(3000000+i)))
+	}
 	for i := 0; i < g.N(150, 1500); i++ {
 		genFlow(g, g.R.Fork(uint64(2000000+i)))
 	}
